@@ -47,6 +47,10 @@ def shapes (dump : String) : IO UInt32 := do
             match c.attr? "name", firstSequence c 4 with
             | some n, some sq => IO.println s!"SHAPE\t{f.name}\t{n}\t{sq.shape}"
             | _, _ => pure ()
+          if c.tag == "complexType" && !(c.elemKids.any (fun k => k.tag == "complexContent" || k.tag == "annotation")) then
+            match c.attr? "name" with
+            | some n => IO.println s!"TSHAPE\t{f.name}\t{n}\t{c.shape}"
+            | none => pure ()
   return 0
 
 /-- stdin lines: `<dump>\t<start>\t<out|->`; one outcome line per request -/
